@@ -95,12 +95,66 @@ def cursor_model(trees_quick, trees_thorough, sample_quick, extend_quick):
         return cov, viol
     return run
 
+def writer_model(cfgs, num_quick, num_thorough):
+    """Spec -> implementation for the writer: tlc -simulate on WriterImpl at real scale prints insert
+    sequences together with the layout the model predicts; they are replayed on the real writer,
+    the decoded bytes are judged by TLC (TraceLayout: format + cut rule), and the predicted layout is
+    compared block by block (drift note)."""
+    def run(prop, tier, seed, work):
+        import json
+        from vlib import SPEC, OUT, NCPU, ToolError, _java, gv, validate_family, sample_scenario, file_violation
+        cov = dict(kind="model-derived insert sequences", runs=[], states=0, transitions=0, traces_validated_against_impl=0,
+                   events_validated=0, evaluations=0, distinct_nontrivial=0, samples=[])
+        viol = []
+        num = num_quick if tier == "quick" else num_thorough
+        for name in cfgs:
+            meta = os.path.join(OUT, "tlc", "%s-wsim-%s" % (prop, name))
+            shutil.rmtree(meta, ignore_errors=True)
+            rc, out = _java({"JAVA_TOOL_OPTIONS": "-Xss32m"}, ["-workers", "4", "-simulate", "num=%d" % num, "-depth", "80", "-seed", str(seed),
+                            "-metadir", meta, "-cleanup", "-noGenerateSpecTE", "-config", "MCWriterReal_%s.cfg" % name, "MCWriterReal.tla"], 1800)
+            shutil.rmtree(meta, ignore_errors=True)
+            if "is violated" in out or "Error:" in out:
+                raise ToolError("WriterImpl (real scale, %s) violates its invariants in simulation:\n%s" % (name, out[-2000:]))
+            seqs = {}
+            for line in out.splitlines():
+                if line.startswith('"WSEQ '):
+                    body = line[len('"WSEQ '):-1]
+                    m = re.match(r'<<<<([\d, ]*)>>, <<([\d, ]*)>>, <<(.*)>>>>$', body)
+                    if not m:
+                        continue
+                    keys = [int(x) for x in m.group(1).split(",") if x.strip()]
+                    vls = [int(x) for x in m.group(2).split(",") if x.strip()]
+                    layout = [[int(a), int(b), int(c)] for a, b, c in re.findall(r'<<(\d+), (\d+), (\d+)>>', m.group(3))]
+                    seqs[body] = dict(keys=keys, vls=vls, layout=layout)
+            L, K = re.match(r'L(\d+)K(\d+)', name).groups()
+            d = os.path.join(work, "wseq-" + name)
+            os.makedirs(d, exist_ok=True)
+            with open(os.path.join(d, "w.json"), "w") as f:
+                json.dump(dict(name=name, L=int(L), K=int(K), seqs=list(seqs.values())), f)
+            info = gv(["wseq", os.path.join(d, "w.json"), "--out", d, "--shards", NCPU])
+            res = validate_family("TraceLayout", "TraceLayout_all.cfg", d, "wseq", "%s-wseq-%s" % (prop, name))
+            for k2, k3 in (("traces_validated_against_impl", "scenarios"), ("events_validated", "events"), ("evaluations", "events"),
+                           ("distinct_nontrivial", "distinct"), ("states", "states"), ("transitions", "generated")):
+                cov[k2] += res[k3]
+            cov["runs"].append(dict(cfg=name, sequences=len(seqs), model_blocks_compared=info.get("model_blocks_compared"),
+                                    drift_model_vs_impl=info.get("model_layout_drift"), rejected=len(res["rejected"])))
+            if not cov["samples"]:
+                cov["samples"].append(dict(family="wseq-" + name, first_lines=sample_scenario(d, "wseq", maxlines=4)))
+            for rej in res["rejected"]:
+                p = file_violation(prop, rej, dict(module="TraceLayout", cfg="TraceLayout_all.cfg", family="wseq", name=name))
+                viol.append((p, "%s (insert sequence generated from the WriterImpl model) rejected at event %s" % (rej["scn"], rej["ev"])))
+        return cov, viol
+    return run
+
 TRUST = ["TLC/SANY and the Json/IOUtils community modules",
          "harness glue that names a returned (key, value) by exact byte equality with an inserted pair",
          "dictionary ranks: TLC itself verifies that rank order is lexicographic byte order (Bytes!Cmp)"]
 
 PLANS = {
     "C01": dict(level="model_checking", assumptions=TRUST,
+                mc=[MC("MCWriter", "MCWriter_sorted_a.cfg", workers=8), MC("MCWriter", "MCWriter_sorted_b.cfg", workers=8),
+                    MC("MCWriter", "MCWriter_L255.cfg", workers=2),
+                    MC("MCWriter", "MCWriter_L255_asfound.cfg", workers=2, expect="fail:SortedNeverPanics")],
                 gen=[G("roundtrip", 600, 20000, "TraceCursor", "TraceCursor.cfg")]),
     "C02": dict(level="model_checking", assumptions=TRUST,
                 gen=[G("seeks", 64, 2000, "TraceCursor", "TraceCursor.cfg")]),
@@ -125,11 +179,13 @@ PLANS = {
                 gen=[G("merge", 400, 15000, "TraceMerger", "TraceMerger.cfg")]),
     "C07": dict(level="model_checking", assumptions=TRUST + ["hook H2 lowers the minimum budget / initial capacity for the small-scale runs; rayon schedules are sampled (pool sizes), not enumerated"],
                 gen=[G("sorter", 320, 12000, "TraceSorter", "TraceSorter_C07.cfg"),
-                     G("sorter_real", 2, 24, "TraceSorter", "TraceSorter_C07.cfg")]),
+                     G("sorter_real", 4, 48, "TraceSorter", "TraceSorter_C07.cfg")]),
     "C08": dict(level="model_checking", assumptions=TRUST + ["hook H2 lowers the minimum budget / initial capacity for the small-scale runs"],
                 gen=[G("spill", 160, 4000, "TraceSorter", "TraceSorter_C08.cfg"),
-                     G("sorter_real", 2, 24, "TraceSorter", "TraceSorter_C08.cfg")]),
+                     G("sorter_real", 12, 96, "TraceSorter", "TraceSorter_C08.cfg")]),
     "C09": dict(level="model_checking", assumptions=TRUST + ["independent decoder: sequential walk, codec crates, LEB128 framing parser"],
+                mc=[MC("MCWriter", "MCWriter_sorted_a.cfg", workers=8), MC("MCWriter", "MCWriter_sorted_c.cfg", workers=8)],
+                extra=[writer_model(["L2K8", "L3K1"], 40, 400)],
                 gen=[G("format", 400, 12000, "TraceLayout", "TraceLayout_C09.cfg"),
                      # the same through a sink that accepts partial writes: recorded offsets must still be right
                      G("format", 120, 3000, "TraceLayout", "TraceLayout_C09.cfg", extra=["--wsched", "rand7"]),
@@ -161,17 +217,22 @@ PLANS = {
                      G("framing", 121, 150, "TraceCursor", "TraceCursor.cfg")],
                 extra=[apalache_varint]),
     "C15": dict(level="model_checking", assumptions=TRUST + ["independent decoder: sequential walk, codec crates, LEB128 framing parser"],
+                mc=[MC("MCWriter", "MCWriter_sorted_a.cfg", workers=8), MC("MCWriter", "MCWriter_sorted_b.cfg", workers=8)],
+                extra=[writer_model(["L3K1", "L4K3"], 40, 400)],
                 gen=[G("cut", 300, 10000, "TraceLayout", "TraceLayout_C15.cfg")]),
     "C17": dict(level="other", explanation="Partial: decides the allocation protocol (layout equality, guard words, double free, leak of the sorter buffer class), the sorter's two-ended buffer bookkeeping (hook H2) and arithmetic overflow (checked build) on executions of the real code, validated by TLC against Alloc.tla. Out-of-bounds READS, use of freed memory through a lifetime-extended reference, alignment and provenance violations leave no trace in these events and are NOT decided (needs Miri/ASan, a different technique family).",
                 assumptions=TRUST + ["monitoring global allocator of the harness process (header + canaries per block)", "hook H2 exposes the sorter's buffer accounting", "overflow checks of the dev-profile build"],
                 gen=[G("alloc", 240, 8000, "TraceAlloc", "TraceAlloc.cfg"),
                      G("alloc_readers", 40, 1200, "TraceAlloc", "TraceAlloc.cfg")]),
     "C18": dict(level="model_checking", assumptions=TRUST + ["independent decoder: sequential walk, codec crates, LEB128 framing parser"],
+                mc=[MC("MCWriter", "MCWriter_unsorted.cfg", workers=8)],
                 gen=[G("unsorted", 1200, 40000, "TraceLayout", "TraceLayout_C18.cfg")]),
     "C03": dict(level="model_checking", assumptions=TRUST,
                 mc=[MC("MCCursor_t50", "MCCursor_t50_asfound.cfg", workers=8, expect="fail:Refines"),
                     MC("MCCursor_t9", "MCCursor_t9_fixed.cfg", workers=8, quick=False, timeout=7200),
                     MC("MCCursor_t48", "MCCursor_t48_fixed.cfg", workers=8, quick=False, timeout=7200)],
-                gen=[G("history", 160, 6000, "TraceCursor", "TraceCursor.cfg")],
+                gen=[G("history", 160, 6000, "TraceCursor", "TraceCursor.cfg"),
+                     # exhaustive exploration of the implementation's own reachable cursor states (hook H1)
+                     G("explore", 9, 9, "TraceCursor", "TraceCursor.cfg", timeout=7200, tlc_timeout=7200)],
                 extra=[cursor_model([15, 50], [0, 2, 15, 50], 200, 12)]),
 }
